@@ -65,6 +65,8 @@ def catalog():
         "f2i": ("f2i", 61, "no implicit floating-to-integral conversion in model code (except parameters that are integers at every call site)", __import__("sa.rules.extra3", fromlist=["x"]).rule_f2i),
         "mode-order": ("mode-order", 20, "a half diagonal is at least as long as the half sides / radius it spans (all models)", __import__("sa.rules.extra3", fromlist=["x"]).rule_c14_modeorder),
         "magloop": ("magloop", 250, "spin-channel loop of every magnetic kernel: slots, weight threshold, q = 0 guard threshold (all magnetic units)", __import__("sa.rules.c06", fromlist=["x"]).make_c_rule("R-C06-loop")),
+        "cos": ("cos", 18, "the mesh weight of a theta jitter point is |cos(dtheta)| times its distribution weight (all oriented units)", __import__("sa.rules.c05", fromlist=["x"]).make_c_rule("R-C05-cos")),
+        "scan": ("scan", 3, "make_source scans for shell_volume / the 2-D mode only after every piece of model code has been appended", __import__("sa.rules.extra3", fromlist=["x"]).rule_c09_scan),
         "drivers": ("drivers", 53, "dll/OpenCL/CUDA drivers agree on kernel arguments, result size, read-back, kernel selection and q layout", gpu.rule_drivers),
         "gpu": ("gpu", 2000, "OpenCL configuration of the kernels: work-item bound, carried q-point sums, gated accumulation (all units)", gpu.make_gpu_rule()),
         "eqvol": ("eqvol", 15, "equivalent-volume-sphere radius mode agrees with form_volume in every model", c14.make_c_rule("R-C14-eqvol")),
